@@ -35,8 +35,8 @@ _FORMAT_STRING_REGEX = r"""
         %  # starting character
         (?P<mapping_key>\([^\)]+\))?
         (?P<conversion_flags>[#0\- +]+)?
-        (?P<field_width>\*|\d+)?
-        (?P<precision>\.(\*|\d+))?
+        (?P<field_width>\*|[0-9]+)?
+        (?P<precision>\.(\*|[0-9]*))?
         (?P<length_modifier>[hlL])?
         (?P<conversion_type>[diouxXeEfFgGcrs%ba])
     |
@@ -125,6 +125,9 @@ class ConversionSpecifier:
             raw = raw.decode("ascii")
         if raw == "*":
             return "*"
+        elif not raw:
+            # "%.f": a precision without digits is 0
+            return 0
         else:
             return int(raw)
 
